@@ -39,6 +39,7 @@ class InterpCore:
         self._ann_cache: dict = {}
         self._scan_cache: dict = {}
         self.entity_classes: dict = {}
+        self.enter_hook = None
         self.call_hook = None  # set by analyses: (fn, args, kwargs, run, node, higher_order) -> NotImplemented | value
         self.trace_calls = None
         self.init_lib()
@@ -501,6 +502,8 @@ class InterpCore:
         if len(self.frames) > 60:
             raise Limit(f"interpreter recursion deeper than 60 frames calling {fn.ref}")
         env = self.bind_args(fn, args, kwargs, run, node)
+        if self.enter_hook is not None:
+            self.enter_hook(fn.ref)
         if fn.defcls is not None:
             env.vars["__class__"] = fn.defcls
         self.frames.append(Frame(fn, fn.module))
@@ -906,6 +909,8 @@ class InterpCore:
         self.throw("AttributeError", f"type object {cls.name!r} has no attribute {name!r}", node)
 
     def setattr_(self, o, name, v, run, node):
+        if isinstance(o, (ClassV, ModuleV)) or (isinstance(o, InstV) and not o.frozen):
+            run.emit("mutate", o, f"setattr:{name}", self.site(node))
         if isinstance(o, ClassV):
             o.ns[name] = v
             return
